@@ -146,7 +146,7 @@ func classify(r *ev.Run, e eco, items []pending) {
 					break
 				}
 			}
-			if agree {
+			if agree && !plainAndList(p.comps) {
 				class = "prerelease-combination"
 			}
 		case it.kind == "reject" && e.name == "npm" && len(p.rejAlts) > 0 && p.hyphenOK:
@@ -280,7 +280,8 @@ func belowZero(v string) bool {
 	return false
 }
 
-var zeroLower = regexp.MustCompile(`^[vV]?(0|[xX*])(\.(0|[xX*])){0,2}$`)
+// (What is written behind a wildcard does not count: 0.x.1 is 0.x.)
+var zeroLower = regexp.MustCompile(`^[vV]?(0(\.0){0,2}|(0\.){0,2}[xX*](\.(\d+|[xX*])){0,2})$`)
 
 // zeroLowerPrereleaseUpper reports whether every given hyphen range has a
 // lower bound that is zero in every written position (0, 0.0, 0.0.x ...) and a
@@ -298,4 +299,32 @@ func zeroLowerPrereleaseUpper(alts []string) bool {
 		}
 	}
 	return true
+}
+
+var fullComparator = regexp.MustCompile(`^\s*(>=|<=|>|<)\s*v?\d+\.\d+\.\d+(-[0-9A-Za-z.-]+)?\s*$`)
+
+// plainAndList: every comparator of the range is an inequality on a full
+// three-number version, none of which is 0.0.0, and no ">" on a release. The
+// recorded prerelease-combination findings live elsewhere (ranges that hold *,
+// x-ranges, partial versions, =, several alternatives, or a strict lower bound
+// on a release, where the references collapse or split the range, or the
+// library steps to a successor, before prereleases are looked at): on a plain
+// list both references and the library admit
+// a prerelease candidate exactly when it lies in the interval and shares its
+// x.y.z with a bound that has a prerelease, so a disagreement there is not the
+// finding's.
+func plainAndList(comps []string) bool {
+	for _, c := range comps {
+		if !fullComparator.MatchString(c) || strings.Contains(c, "0.0.0") {
+			return false
+		}
+		// ">X" on a release X: the library turns it into a bound at X's
+		// successor, and a prerelease of that successor (>0.0.1 <0.0.2-alpha.1
+		// against 0.0.2-0) is where its interval algebra departs from the
+		// references' comparator-by-comparator reading: the finding's own ground.
+		if t := strings.TrimSpace(c); strings.HasPrefix(t, ">") && !strings.HasPrefix(t, ">=") && !strings.Contains(t, "-") {
+			return false
+		}
+	}
+	return len(comps) >= 2
 }
